@@ -5,14 +5,15 @@
 patch=$1; tier=${2:-quick}; shift; shift
 props=${@:-C01 C02 C03 C04 C05 C06 C07 C08 C09 C10 C11 C12 C13 C14 C15 C16 C17 C18 C19 C20}
 R=${SEED_REPO:-/repo}
+V=$(cd "$(dirname "$0")" && pwd)
 cd $R || exit 2
 if [ -n "$(git status --porcelain)" ]; then echo "$R not clean"; exit 2; fi
 git apply "$patch" || { echo "patch does not apply"; exit 2; }
 trap "git -C $R checkout -- . ; git -C $R clean -fdq pkg cmd" EXIT
-BASE_REPO=$R /verif/baseline.sh | tail -3
+BASE_REPO=$R $V/baseline.sh | tail -3
 caught=""
 for p in $props; do
-  out=$(KVASS_REPO=$R /verif/check $p $tier -no-evidence 2>&1); rc=$?
+  out=$(KVASS_REPO=$R $V/check $p $tier -no-evidence 2>&1); rc=$?
   sigs=$(echo "$out" | grep "signature:" | sed 's/.*signature: //' | tr '\n' ' ')
   echo "$p rc=$rc $(echo "$out" | tail -1 | cut -c1-110) $sigs"
   [ $rc -eq 1 ] && caught="$caught $p"
